@@ -73,7 +73,7 @@ PROPS = {
         "level": "proof",
         "harness": ["gwrun", "purediff"],
         "stages": [("pure", stage_pure, {"suites": ["ressub"], "n_quick": 4000, "n_thorough": 60000}),
-                   ("gw", stage_gw, {"profiles": [("basic", 60, 1500), ("refs", 150, 4000)]})],
+                   ("gw", stage_gw, {"profiles": [("basic", 50, 1000), ("refs", 120, 3000), ("churn", 120, 3000), ("wild", 0, 1500)]})],
         "rule": "random histories of the real gateway under the harness scheduler (every connection task, cache task and hooked goroutine "
                 "granted one at a time): 2 clients, 3-4 resources with reference graphs (sharing, cycles, self references), "
                 "subscribe/unsubscribe/get, service change/add/remove/custom events made unique by a fresh tag, answers in any order; "
@@ -89,7 +89,7 @@ PROPS = {
         "coq": ["Props/C02.v"],
         "level": "proof",
         "harness": ["gwrun"],
-        "stages": [("gw", stage_gw, {"profiles": [("refs", 200, 5000), ("gets", 100, 2000)]})],
+        "stages": [("gw", stage_gw, {"profiles": [("refs", 150, 4000), ("churn", 150, 4000), ("gets", 0, 1500), ("wild", 0, 1500)]})],
         "rule": "as C01 with reference-changing events and unsubscribes; the reference client (Spec/Client.v) retains what is reachable from "
                 "direct subscriptions and outstanding subscribe/get requests; after every frame: no dangling reference, no event for an "
                 "unheld resource, right kind, index in range; non-trivial = more than 4 client frames and a quiescent point",
@@ -102,7 +102,7 @@ PROPS = {
         "coq": ["Props/C03.v"],
         "level": "proof",
         "harness": ["gwrun"],
-        "stages": [("gw", stage_gw, {"profiles": [("basic", 100, 2500), ("refs", 150, 4000)]})],
+        "stages": [("gw", stage_gw, {"profiles": [("basic", 80, 2000), ("refs", 120, 3000), ("churn", 100, 3000), ("wild", 0, 1500)]})],
         "rule": "as C01; every service event carries a unique tag; per client and resource the delivered events must be a contiguous run "
                 "of the service stream (candidate-position tracking, no false alarm on repeated identical events), nothing missing at quiescence",
         "assumptions": ["no resets/query events in this stage (superseded events are not exercised)"],
@@ -115,7 +115,7 @@ PROPS = {
         "level": "proof",
         "harness": ["gwrun", "purediff"],
         "stages": [("pure", stage_pure, {"suites": ["dispatch"], "n_quick": 4000, "n_thorough": 80000}),
-                   ("gw", stage_gw, {"profiles": [("basic", 100, 2500), ("refs", 100, 3000)]})],
+                   ("gw", stage_gw, {"profiles": [("basic", 80, 2000), ("refs", 80, 2500), ("churn", 120, 3000), ("wild", 0, 1500)]})],
         "rule": "as C01; response ledger: every response matches exactly one outstanding request id of that connection, nothing outstanding at quiescence; "
                 "plus the dispatcher differential (exactly one immediate reply or one requester call per method string)",
         "assumptions": [],
@@ -127,7 +127,7 @@ PROPS = {
         "coq": ["Props/C08.v"],
         "level": "proof",
         "harness": ["gwrun"],
-        "stages": [("gw", stage_gw, {"profiles": [("basic", 100, 2500), ("gets", 100, 2500)]})],
+        "stages": [("gw", stage_gw, {"profiles": [("basic", 100, 2500), ("churn", 150, 3000), ("gets", 0, 1500), ("wild", 0, 1500)]})],
         "rule": "as C01 with unsubscribe counts (absent, 0, negative, 1..3) and failing gets; ledger driven only by observable successes predicts every "
                 "unsubscribe outcome and is compared with the gateway's own direct counts (introspection) at every quiescent point",
         "assumptions": [],
